@@ -24,6 +24,8 @@ type c02Case struct {
 	TLSMax   uint16 `json:"tls_max"`
 	Protos   string `json:"protos"` // "", ship, other, other+ship
 	Paired   bool   `json:"victim_paired"`
+	KeyType  string `json:"key_type"` // p256 (default), p384, ed25519, rsa
+	Chain    bool   `json:"chain"`    // the victim\'s genuine certificate is appended behind the presented leaf
 }
 
 type c02Obs struct {
@@ -154,6 +156,12 @@ func genC02(r *vc.Rand, i int) *c02Case {
 	if c.CertKind == "ski-len" {
 		c.SKILen = vc.Pick(r, []int{0, 1, 8, 16, 19, 21, 32, 40})
 	}
+	c.KeyType = vc.Pick(r, []string{"p256", "p256", "p256", "p384", "ed25519", "rsa"})
+	// a chain: the peer proves possession of the leaf key only; a genuine certificate of another
+	// device riding along must not lend its SKI
+	if c.CertKind != "none" && c.CertKind != "correct" && r.Chance(1, 3) {
+		c.Chain = true
+	}
 	if c.Dir == "inbound" {
 		switch r.Intn(6) {
 		case 0:
@@ -203,7 +211,6 @@ func runC02(c *c02Case, col *vc.Collector) {
 	}
 	// the victim: another device, possibly paired at A
 	victimCert, victimSKI, _ := MakeCert(CertOpts{})
-	_ = victimCert
 	if c.Paired {
 		a.Register(victimSKI)
 	}
@@ -212,14 +219,14 @@ func runC02(c *c02Case, col *vc.Collector) {
 	switch c.CertKind {
 	case "none":
 	case "no-ski":
-		x, _, err := MakeCert(CertOpts{NoSKI: true})
+		x, _, err := MakeCert(CertOpts{NoSKI: true, KeyType: c.KeyType})
 		if err == nil {
 			crt = &x
 		}
 	case "ski-len":
 		if c.SKILen == 0 {
 			// x509 derives a key identifier itself when a CA template has none: use the non-CA form
-			x, _, err := MakeCert(CertOpts{NoSKI: true})
+			x, _, err := MakeCert(CertOpts{NoSKI: true, KeyType: c.KeyType})
 			if err == nil {
 				crt = &x
 			}
@@ -229,12 +236,12 @@ func runC02(c *c02Case, col *vc.Collector) {
 		for i := range b {
 			b[i] = byte(i + 1)
 		}
-		x, s, err := MakeCert(CertOpts{SKI: b})
+		x, s, err := MakeCert(CertOpts{SKI: b, KeyType: c.KeyType})
 		if err == nil {
 			crt, presentedSKI = &x, s
 		}
 	case "correct":
-		x, s, err := MakeCert(CertOpts{})
+		x, s, err := MakeCert(CertOpts{KeyType: c.KeyType})
 		if err == nil {
 			crt, presentedSKI = &x, s
 		}
@@ -242,12 +249,15 @@ func runC02(c *c02Case, col *vc.Collector) {
 		// a fresh key, but the certificate carries the victim's SKI
 		var raw []byte
 		fmt.Sscanf(victimSKI, "%x", &raw)
-		x, s, err := MakeCert(CertOpts{SKI: raw})
+		x, s, err := MakeCert(CertOpts{SKI: raw, KeyType: c.KeyType})
 		if err == nil {
 			crt, presentedSKI = &x, s
 		}
 	}
-	cls := fmt.Sprintf("%s:%s:len=%d:tls=%s:protos=%s:victim-paired=%v", c.Dir, c.CertKind, c.SKILen, tlsName(c.TLSMax), c.Protos, c.Paired)
+	if c.Chain && crt != nil {
+		crt.Certificate = append(crt.Certificate, victimCert.Certificate[0])
+	}
+	cls := fmt.Sprintf("%s:%s:len=%d:key=%s:chain=%v:tls=%s:protos=%s:victim-paired=%v", c.Dir, c.CertKind, c.SKILen, c.KeyType, c.Chain, tlsName(c.TLSMax), c.Protos, c.Paired)
 	col.Class(prop, cls)
 	wit := map[string]any{"case": c, "presented_ski": presentedSKI, "victim_ski": victimSKI}
 
@@ -287,6 +297,8 @@ func runC02(c *c02Case, col *vc.Collector) {
 		} else {
 			if o.GotShip {
 				col.Count(prop, "legitimate-peer-accepted", 1)
+			} else if c.KeyType != "p256" {
+				col.Count(prop, "correct-ski-with-"+c.KeyType+"-key-not-accepted(not mandated)", 1)
 			} else {
 				col.Violation(prop, "inbound-legitimate-refused", fmt.Sprintf("a client with a correct certificate, TLS %s and the ship sub-protocol got no SHIP reply: %+v", tlsName(c.TLSMax), o), c.ID, wit)
 			}
@@ -320,7 +332,7 @@ func runC02(c *c02Case, col *vc.Collector) {
 	if c.acceptable() {
 		if got {
 			col.Count(prop, "legitimate-peer-accepted", 1)
-		} else if conns > 0 {
+		} else if conns > 0 && c.KeyType == "p256" {
 			col.Violation(prop, "outbound-legitimate-refused", "the server presented the SKI of its own key, equal to the dialled one, but got no SHIP message", c.ID, wit)
 		}
 		return
